@@ -8,6 +8,24 @@ package main
 //   diff(target, base) = layer != nil =>  bkl accepts the layer over base and the result is the target
 // for "$"-free, null-free targets outside the classes of finding F13 (kindBad).
 
+// main: the layer is diff(target, base) - the evaluated TARGET document against the evaluated BASE document, in that
+// order - decorated by diffDoc with "$match: {}" so that it applies to the base document whatever else is in the stream.
+//@ func main() ()
+//@   property C15
+//@   at call diffDoc#1
+//@     assert (and (= dst@arg targetDoc) (= src@arg baseDoc))                                                  [C15]
+//@   at call Document.Process#1
+//@     assert (= d@arg baseDoc)                                                                                [C15]
+//@   at call Document.Process#2
+//@     assert (= d@arg targetDoc)                                                                              [C15]
+//
+//@ func diffDoc(dst, src) (res, err)
+//@   property C15
+//@   requires (plainT (Document.Data dst))
+//@   ensures (not (isErr err))
+//@   ensures (=> (= (Document.Data dst) (Document.Data src)) (= res VNil))                                    [C15]
+//@   ensures (=> ((_ is VMap) res) (= (select (mc res) "$match") (VMap emptyM)))                              [C15]
+//
 //@ func diff(dst, src) (res, err)
 //@   requires (plainT dst)
 //@   ensures (not (isErr err))
